@@ -13,4 +13,7 @@ INVARIANT NoRedo
 INVARIANT NoRedoPlot
 INVARIANT SkippedUntouched
 INVARIANT GroupRedone
+INVARIANT SemOK
+INVARIANT FlagPresent
+INVARIANT AbsentFlagRedone
 CHECK_DEADLOCK FALSE
